@@ -312,6 +312,17 @@ impl<'a> crate::fdl::FdlApplication for DpMaster<'a> {
             };
 
             if let Some((handle, peripheral)) = self.peripherals.get_at_index_mut(index) {
+                if peripheral_event.is_some() {
+                    // Only one peripheral event can be reported per poll cycle.  Report the
+                    // pending one now and continue with this peripheral the next time so its
+                    // event cannot get lost.
+                    self.state.last_events = DpEvents {
+                        peripheral: peripheral_event,
+                        ..Default::default()
+                    };
+                    return None;
+                }
+
                 let res = peripheral.transmit_telegram(now, &self.state, fdl, tx, high_prio_only);
 
                 match res {
